@@ -23,6 +23,25 @@ import json
 E0 = 150e9
 SY = 150e6  # reference yield stress
 
+# Keys of the known findings (set by C43_bricks.py from verifpy.KNOWN).  A component is only kept out of the random pool
+# (or restricted to the sub-domain where it is exact) while the key of its defect is *known*: once the key is dropped
+# (defect repaired) the component is generated and asserted like any other one.
+KNOWN_KEYS = set()
+K_DRUCKER = "C43.jacobian.Drucker1949_c_ne_1"
+K_CAZACU = "C43.jacobian.Cazacu2001_c_ne_1"
+K_POWER = "C43.jacobian.theta.Power_p0"
+K_UDIH = "C43.jacobian.theta.UserDefinedIsotropicHardening"
+K_SRS = "C43.jacobian.theta.StrainRateSensitive"
+K_UDVP = "C43.jacobian.theta.UserDefinedViscoplasticity_dvp_dp"
+K_CNSTRAIN = "C43.jacobian.nucleation.ChuNeedleman1980_strain"
+K_CNSTRESS = "C43.jacobian.nucleation.ChuNeedleman1980_stress"
+K_PLSTRESS = "C43.jacobian.nucleation.PowerLaw_stress"
+K_CHABOCHE = "C43.emitted_code.Chaboche2012_Phi"
+
+
+def known(key):
+    return key in KNOWN_KEYS
+
 
 def _v(seq, k):
     return seq[k % len(seq)]
@@ -85,6 +104,28 @@ CRITERIA = {
     "MichelSuquet": (False, True, ['"MichelAndSuquet1992HollowSphere" {n : 5}',
                                    '"MichelAndSuquet1992HollowSphere" {n : 3}']),
 }
+_DRUCKER_FULL = ['"Drucker 1949" {c : 1.285}', '"Drucker 1949" {c : -1.5}', '"Drucker 1949" {c : 1.75}']
+_CAZACU_FULL = ['"Cazacu 2001" {a : %s, b : %s, c : 1.285}' % (_CAZ_A, _CAZ_B), '"Cazacu 2001" {a : %s, b : %s, c : 1}' % (_CAZ_A, _CAZ_B)]
+
+
+def criterion_variants(name):
+    """variants of the text of a criterion; Drucker 1949 / Cazacu 2001 are restricted to c = 1 while their finding is known"""
+    if name == "Drucker1949" and not known(K_DRUCKER):
+        return _DRUCKER_FULL
+    if name == "Cazacu2001" and not known(K_CAZACU):
+        return _CAZACU_FULL
+    return CRITERIA[name][2]
+
+
+def c_is_frozen(cfg):
+    """true when a criterion of the configuration must stay at c = 1 (run-time rescaling of c disabled)"""
+    for fl in cfg.get("flows", []):
+        for c in (fl["crit"], fl.get("fcrit")):
+            if (c == "Drucker1949" and known(K_DRUCKER)) or (c == "Cazacu2001" and known(K_CAZACU)):
+                return True
+    return False
+
+
 # criteria usable as (non associated) flow criterion
 FLOW_CRITERIA = ["Mises", "Hill", "Hosford", "Drucker1949", "IsoCazacu2004"]
 
@@ -135,17 +176,28 @@ KIN_CHOICES = {
     "Chaboche2012_Phi": ["Chaboche2012_Phi"],
 }
 # values only used by the probes of the known findings, never drawn for the pool
-NOT_IN_POOL = {"crit:Drucker1949_probe", "crit:Cazacu2001_probe", "kin:Chaboche2012_Phi", "nuc:CN_strain", "nuc:CN_stress",
-               "nuc:PL_stress", "palgo:staggered"}
-# components whose emitted derivative is only right for theta = 1 (known findings C43.jacobian.theta.*): the pool drives
-# them with theta = 1, the probes with theta = 0.5
-THETA1_ISO = ("Power", "UserDefined", "SRS_CowperSymonds", "SRS_JohnsonCook")
-THETA1_FLOW = ("UserDefinedVP",)
+def not_in_pool():
+    """values only used by the probes (never drawn for the pool): probe-only variants, out of scope values and the
+    components whose finding is still known"""
+    v = {"crit:Drucker1949_probe", "crit:Cazacu2001_probe", "kin:Chaboche2012_Phi", "palgo:staggered"}
+    if known(K_CNSTRAIN):
+        v.add("nuc:CN_strain")
+    if known(K_CNSTRESS):
+        v.add("nuc:CN_stress")
+    if known(K_PLSTRESS):
+        v.add("nuc:PL_stress")
+    return v
+
+
+# components whose emitted derivative is only right for theta = 1 while their finding (C43.jacobian.theta.*) is known: the
+# pool then drives them with theta = 1, the probes with theta = 0.5
+THETA1_ISO = {"Power": K_POWER, "UserDefined": K_UDIH, "SRS_CowperSymonds": K_SRS, "SRS_JohnsonCook": K_SRS}
+THETA1_FLOW = {"UserDefinedVP": K_UDVP}
 
 
 def needs_theta1(cfg):
     for fl in cfg.get("flows", []):
-        if fl["flow"] in THETA1_FLOW or any(r in THETA1_ISO for r in ISO_CHOICES[fl["iso"]]):
+        if known(THETA1_FLOW.get(fl["flow"])) or any(known(THETA1_ISO.get(r)) for r in ISO_CHOICES[fl["iso"]]):
             return True
     return False
 
@@ -207,8 +259,11 @@ def valid(cfg):
         return False  # "kinematic hardening rules are not supported when coupled with a porosity evolution" (mfront error)
     if sum(KIN_CHOICES[fl["kin"]].count("DRS") for fl in cfg["flows"]) > 1:
         return False  # entry name 'InelasticStrainRateLinearTransformationCoefficients' declared twice (mfront error)
-    if is_porous(cfg) and any(fl["flow"] == "UserDefinedVP" for fl in cfg["flows"]):
-        return False  # emitted code does not compile (dn_df, trace_n undeclared); reported separately
+    if is_porous(cfg) and any(fl["flow"] == "UserDefinedVP" or fl["crit"] == "MohrCoulomb" for fl in cfg["flows"]):
+        # MohrCoulomb criterion (seen with Plastic and UserDefinedViscoplasticity flows) + porosity evolution: the emitted
+        # code does not compile (dn_df, trace_n undeclared); reported separately.  UserDefinedViscoplasticity + porosity is
+        # kept out as well (only met together with MohrCoulomb, not disentangled).
+        return False
     if len(cfg["flows"]) > 1:
         # Several flows: mfront 5.2-dev generates code that does not compile (identifiers without the flow id) for
         # StrainRateSensitive / UserDefined hardening rules, UserDefinedViscoplasticity flows and porous criteria.
@@ -252,9 +307,9 @@ def program(cfg):
     else:
         items = ["  stress_potential : " + sp]
         for i, fl in enumerate(cfg["flows"]):
-            it = ["    criterion : " + _v(CRITERIA[fl["crit"]][2], k + i)]
+            it = ["    criterion : " + _v(criterion_variants(fl["crit"]), k + i)]
             if fl.get("fcrit"):
-                it.append("    flow_criterion : " + _v(CRITERIA[fl["fcrit"]][2], k + i + 1))
+                it.append("    flow_criterion : " + _v(criterion_variants(fl["fcrit"]), k + i + 1))
             seen = {}
             for r in ISO_CHOICES[fl["iso"]]:
                 j = seen.get(r, 0)
